@@ -455,7 +455,8 @@ func (c *coverer) normalizeCovering(covering *CellUnion) {
 		return
 	}
 	if excess*len(*covering) > 10000 {
-		rc := NewRegionCoverer()
+		// The new covering must satisfy the same restrictions as this one.
+		rc := &RegionCoverer{MinLevel: c.minLevel, MaxLevel: c.MaxLevel, LevelMod: c.levelMod, MaxCells: c.maxCells}
 		(*covering) = rc.Covering(covering)
 		return
 	}
